@@ -21,6 +21,9 @@ Next == /\ l <= Len(Rec) /\ l' = l + 1 /\ last' = Rec[l]
 Spec == Init /\ [][Next]_tvars
 
 P_C10_KeyPairing == last.e = "sign" => (last.verifies = last.guid /\ last.guid \in issued)
+\* the signing helper itself, called concurrently with two keys: {"e":"sigfn","calls":n,"mismatches":m,"refOk":b}
+\* (refOk: the single-threaded MACs equal an independent HMAC-SHA256)
+P_C10_SignerFunction == last.e = "sigfn" => (last.mismatches = 0 /\ last.refOk)
 Accepted == IF TLCGet("stats").diameter - 1 = Len(Rec) THEN TRUE
             ELSE PrintT(<<"UNMATCHED", TLCGet("stats").diameter, Len(Rec)>>) /\ FALSE
 =============================================================================
